@@ -135,7 +135,33 @@ func serverVod() (string, error) {
 var reqCountBodyRe = regexp.MustCompile(`^(-?\d+) \(max (-?\d+)\) until `)
 
 // runCase drives one limiter through the calls of a case.
+var errHang = fmt.Errorf("hang: the calls did not return")
+
+// runCase runs the calls of a case under a watchdog (a limiter that blocks - e.g. takes its own mutex
+// twice - must become a finding with a replay, not a harness that never ends).
 func runCase(in *c20in) ([]c20obs, error) {
+	type res struct {
+		obs []c20obs
+		err error
+	}
+	ch := make(chan res, 1)
+	go func() {
+		o, err := runCaseUnguarded(in)
+		ch <- res{o, err}
+	}()
+	limit := 10 * time.Second
+	if isRealtime(in) {
+		limit = 60 * time.Second
+	}
+	select {
+	case r := <-ch:
+		return r.obs, r.err
+	case <-time.After(limit):
+		return nil, errHang
+	}
+}
+
+func runCaseUnguarded(in *c20in) ([]c20obs, error) {
 	if pre, ok := precomputed[in]; ok {
 		return pre, nil
 	}
@@ -564,9 +590,17 @@ func runC20(c *lib.Ctx) error {
 			}(i)
 		}
 	}
+	hangs, reportedHangs := 0, 0
 	for i := range ins {
 		if !isRealtime(ins[i]) {
+			if hangs >= 3 {
+				errs[i] = errHang // every hang leaves a blocked goroutine behind; three replays are enough
+				continue
+			}
 			obsAll[i], errs[i] = runCase(ins[i])
+			if errs[i] == errHang {
+				hangs++
+			}
 		}
 	}
 	wg.Wait()
@@ -580,6 +614,18 @@ func runC20(c *lib.Ctx) error {
 	for i, in := range ins {
 		id := fmt.Sprintf("%d", i)
 		okCIDR := cidrOK(in.WhiteList)
+		if errs[i] == errHang {
+			if obsAll[i] == nil && hangs <= 3 {
+				hangs++ // report the first ones only
+			}
+			if reportedHangs < 3 {
+				reportedHangs++
+				c.Fail(id, "hang", fmt.Sprintf("the calls of this sequence did not return within 10 s (limiter kind %s, reqlimitlog %q, via SetupServer %v): a call blocks for ever", in.Kind, in.LogMode, in.ViaServer), in)
+			}
+			c.Count("hang-or-skipped-after-hangs")
+			c.Res.Inputs[id] = in
+			continue
+		}
 		if errs[i] != nil {
 			if okCIDR {
 				c.Fail(id, "constructor", fmt.Sprintf("NewIPRequestLimiter refused the block list %q: %v", in.WhiteList, errs[i]), in)
